@@ -671,8 +671,12 @@ class Module:
     def parse_instr(self, line):
         toks = tokenize(line)
         # strip trailing metadata attachments: ", !tbaa !5" etc.
+        depth = 0
         for j, (k, v) in enumerate(toks):
-            if k == 'meta':
+            if k == 'punct':
+                if v in '([{': depth += 1
+                elif v in ')]}': depth -= 1
+            elif k == 'meta' and depth == 0:
                 # cut at the comma before
                 cut = j
                 if cut > 0 and toks[cut - 1][1] == ',':
@@ -933,6 +937,7 @@ class Module:
                     depth = 0
                     while True:
                         kk, vv = p.peek()
+                        if kk is None: raise ParseError('unterminated metadata operand')
                         if depth == 0 and vv in (',', ')'): break
                         if vv in ('(', '{', '['): depth += 1
                         if vv in (')', '}', ']'): depth -= 1
